@@ -155,6 +155,10 @@ def run(ctx, impl_only=False):
             vals.append(v)
         if len(vals) >= n:
             break
+    # (appended after the generated values: the PYTHONHASHSEED subprocesses take the first values only)
+    # hostile keys, edge-case leaves, one object at two places (implementation only where outside the model universe)
+    from . import _difffam as FAM
+    vals += [p_[0] for p_ in FAM.hostile_pairs(ctx, 60 if ctx.thorough() else 20) if HS.no_num_alias(p_[0])]
     lines, metas = [], []
     for i, v in enumerate(vals):
         for mname, (rep, order) in HS.MODES.items():
